@@ -50,6 +50,21 @@ class MatchResult:
         return f"MatchResult({self._groups!r}, index={self.index})"
 
 
+# Verification hook: None unless installed by a harness under MICROJS_VERIF=1.
+_verif_hook = None
+
+
+def _verif_install(hook) -> bool:
+    """Install a per-step observer; refused unless MICROJS_VERIF=1."""
+    global _verif_hook
+    import os
+
+    if os.environ.get("MICROJS_VERIF") != "1":
+        return False
+    _verif_hook = hook
+    return True
+
+
 class RegexVM:
     """
     Regex bytecode virtual machine.
@@ -151,6 +166,8 @@ class RegexVM:
         stack: List[Tuple] = []
 
         while True:
+            if _verif_hook is not None:
+                _verif_hook(self, "re", pc, sp, len(stack), step_count)
             # Check limits periodically
             step_count += 1
             if step_count % self.poll_interval == 0:
@@ -644,6 +661,8 @@ class RegexVM:
         step_count = 0
 
         while True:
+            if _verif_hook is not None:
+                _verif_hook(self, "la", pc, sp, len(stack), step_count)
             step_count += 1
             if step_count % self.poll_interval == 0:
                 if self.poll_callback and self.poll_callback():
@@ -757,6 +776,8 @@ class RegexVM:
         step_count = 0
 
         while True:
+            if _verif_hook is not None:
+                _verif_hook(self, "lb", pc, sp, len(stack), step_count)
             step_count += 1
             if step_count % self.poll_interval == 0:
                 if self.poll_callback and self.poll_callback():
